@@ -1,6 +1,7 @@
 import Hls.Proofs.Render
 import Hls.Proofs.MasterWrittenRT
 import Hls.Proofs.ParsedMaster
+import Hls.Proofs.ExamplesMaster
 /-!
 # C04 — a master playlist survives serialise → parse
 
@@ -127,5 +128,9 @@ theorem master_fixed_point_parsed (s : Str) (p p' : MasterPlaylist) (h : parseMa
     (h' : parseMaster p.show = .ok p') : p'.show = p.show := by
   rw [master_roundtrip_parsed s p h ho] at h'
   cases h'; rfl
+
+/-- non-vacuity of `master_roundtrip_wf` / `master_roundtrip_parsed`: a concrete master playlist with every kind of
+tag is in `MasterWF` and round-trips at string level -/
+theorem example_master : MasterWF exMaster ∧ parseMaster exMaster.show = .ok exMaster := ⟨exMaster_wf, exMaster_roundtrip⟩
 
 end Hls.C04
